@@ -3,7 +3,7 @@
    _get_kaykobad_context, solve_for_variables (sympy.solve replaced by exact Gauss-Jordan),
    _context_reduction, _tactic_1 .. _tactic_5, _get_tlp_context, _transform_term, _transform,
    elim_vars_by_refining, elim_vars_by_relaxing.   Definitions only. *)
-From Coq Require Import List String Bool QArith Qabs ZArith.
+From Coq Require Import List String Ascii Bool QArith Qabs ZArith.
 Import ListNotations.
 Require Import Py ListsGen Sem Term Poly.
 Local Open Scope Q_scope.
@@ -136,6 +136,8 @@ Definition get_kaykobad_context (term : pterm) (context : list pterm) (vars_to_e
   else ret (rows, fvars).
 
 (* ---------- tactic 5: LP-active context ---------- *)
+Fixpoint unary (n : nat) : string := match n with O => EmptyString | S k => String "i"%char (unary k) end.
+Definition lam_name (i : nat) : var := String "#"%char (unary i).
 Definition isclose0 (s : Q) : bool := qle (qabs s) (Qmake 1 100000000).    (* np.isclose(slack, 0): atol 1e-8 *)
 Fixpoint tlp_pick (context : list pterm) (slack : list Q) (fvars : list var) (need : nat) : list pterm :=
   match need with
@@ -152,12 +154,11 @@ Fixpoint tlp_pick (context : list pterm) (slack : list Q) (fvars : list var) (ne
 Definition get_tlp_context (O : oracle) (term : pterm) (context : list pterm) (vars_to_elim : list var) (refine : bool)
   : M (list pterm * list var) :=
   let fvars := list_intersection vars_to_elim (term_vars_p term) in
-  match context with [] => raise ValueErr | _ =>       (* linprog rejects an empty problem with ValueError *)
-  if negb (all_have_vars context) then unmodelled else
   let var_list := polytope_vars context [] in
+  match var_list with [] => raise ValueErr | _ =>      (* linprog rejects an empty problem with ValueError *)
   let objective := map (fun v => let c := if py_in v fvars then get_coefficient term v else 0 in
                                  if refine then qneg c else c) var_list in
-  match O (mkLP objective (map (term_to_row var_list) context)) with
+  match O (mkLP var_list objective (map (term_to_row var_list) context)) with
   | LpUnbounded => raise ValueErr
   | LpInfeasible | LpOther _ => raise ValueErr
   | LpMiss => raise OracleMiss
@@ -167,7 +168,18 @@ Definition get_tlp_context (O : oracle) (term : pterm) (context : list pterm) (v
       if Nat.ltb nactive n then raise ValueErr
       else
         let rows := tlp_pick context slack fvars n in
-        if Nat.ltb (List.length rows) n then raise ValueErr else ret (rows, fvars)
+        if Nat.ltb (List.length rows) n then raise ValueErr else
+        (* multipliers = np.linalg.solve(row_matrix.T, term_vector): one equation per forbidden
+           variable j:  Σ_i rows_i[j] * λ_i = term[j] ; LinAlgError (singular) -> ValueError *)
+        let names := map lam_name (seq 0 (List.length rows)) in
+        let eqs := map (fun v => mk_term (combine names (map (fun r => get_coefficient r v) rows))
+                                         (get_coefficient term v)) fvars in
+        let '(pivots, rest) := gauss names [] eqs in
+        if negb (Nat.eqb (List.length pivots) (List.length names)) then raise ValueErr else
+        let lams := map (fun q => qneg (tconst (solve_isolate (snd q) (fst q)))) pivots in
+        if refine && existsb (fun l => qlt l 0) lams then raise ValueErr else
+        if negb refine && existsb (fun l => qlt 0 l) lams then raise ValueErr else
+        ret (rows, fvars)
   end end.
 
 (* ---------- _context_reduction ---------- *)
@@ -196,11 +208,10 @@ Definition tactic_2 (O : oracle) (term : pterm) (context : list pterm) (vars_to_
       (filter (fun c => negb (nonempty (list_diff (term_vars_p c) vars_to_elim)) && negb (term_eqb_p c term)) context) in
   match new_context with [] => raise ValueErr | _ =>
   if nonempty (list_diff conflict_vars (tl_vars new_context)) then raise ValueErr else
-  if negb (all_have_vars new_context) then unmodelled else
   let variables := polytope_vars new_context [] in
   let polarity := if refine then -(1) else 1 in
   let objective := map (fun v => qmul polarity (get_coefficient term v)) variables in
-  match O (mkLP objective (map (term_to_row variables) new_context)) with
+  match O (mkLP variables objective (map (term_to_row variables) new_context)) with
   | LpInfeasible | LpUnbounded => raise ValueErr
   | LpOther _ => raise (Escape "TypeError")
   | LpMiss => raise OracleMiss
@@ -264,11 +275,14 @@ Fixpoint tactic_4 (fuel : nat) (term : pterm) (context : list pterm) (vars_to_el
                  | [] => ret (None, total)
                  | useful_term :: us' =>
                      let new_context := remove_first_term useful_term context in
+                     (* sign = 1 if term.get_coefficient(var_to_elim) > 0 else -1 *)
+                     let sign := if qlt 0 (get_coefficient term var_to_elim) then 1 else -(1) in
                      match term_isolate_variable useful_term var_to_elim with
                      | inr e => inr e             (* isolate is outside the try block *)
-                     | inl new_term =>
+                     | inl iso =>
+                         let new_term := term_multiply iso sign in
                          match tactic_4 fuel' new_term new_context vars_to_elim refine (no_vars ++ [var_to_elim]) with
-                         | inl (Some rt, cnt) => ret (Some (term_substitute_variable term var_to_elim rt), (total + cnt)%nat)
+                         | inl (Some rt, cnt) => ret (Some (term_substitute_variable term var_to_elim (term_multiply rt sign)), (total + cnt)%nat)
                          | inl (None, cnt) => loop us' (total + cnt)%nat
                          | inr e => if is_value_error e then loop us' (S total) else inr e
                          end
